@@ -157,32 +157,15 @@ harness!(c12_prefix_from_arrival_bound_until, 10, |s| {
     cover!(d == horizon && horizon >= 5, "query exactly at the horizon");
 });
 
-// From<&ArrivalCurvePrefix> for Curve: the prefix (two steps) is a concrete shape - its
-// steps_iter is an unbounded flat_map over horizon cycles, symbolic positions exhaust memory
-fn curve_from_prefix_body(s: &mut Src, x: u64, horizon: u64) {
-    let mut v = Vec::with_capacity(4);
-    v.push((Duration::from(1), 1usize));
-    v.push((Duration::from(x), 2usize));
-    let p = ArrivalCurvePrefix::new(Duration::from(horizon), v);
-    let c = Curve::from(&p);
-    let d = s.bits(15);
-    // inside its horizon the prefix is exact and so is the derived curve; beyond it
-    // the prefix's own (coarser) repetition is not the reference
-    if d <= horizon {
-        assert!(na(&c, d) == na(&p, d));
-    } else {
-        assert!(na(&c, d) >= 2);
-    }
-    cover!(d == horizon, "query at the horizon");
-}
-harness!(c12_curve_from_prefix_2_3, 10, |s| { curve_from_prefix_body(s, 2, 3); });
-harness!(c12_curve_from_prefix_3_7, 10, |s| { curve_from_prefix_body(s, 3, 7); });
+// From<&ArrivalCurvePrefix> for Curve is out of reach: even for a concrete two-step prefix the
+// query (DeltaMinIterator over the prefix's unbounded flat_map of horizon cycles, followed by
+// extrapolate_with_bound) did not finish within 30 minutes (DESIGN.md section 8).
 
 pub fn register(t: &mut Table) {
     reg!(t;
         c12_from_trace_2_2, c12_from_trace_3_2, c12_from_trace_4_2, c12_from_trace_4_3, c12_from_trace_5_2, c12_from_trace_5_4,
         c12_from_periodic, c12_delta_min_sporadic, c12_delta_min_symcurve,
         c12_from_arrival_bound_symcurve, c12_from_arrival_bound_until_symcurve,
-        c12_prefix_from_arrival_bound_until, c12_curve_from_prefix_2_3, c12_curve_from_prefix_3_7,
+        c12_prefix_from_arrival_bound_until,
     );
 }
